@@ -495,11 +495,14 @@ func init() {
 			data = append([]byte("not a pointer: "), data...)
 		}
 		// "does not parse as a pointer" is judged by the harness's own
-		// reading of the format (an input of 1024 bytes or more whose first
-		// 1024 bytes trim to a pointer is ambiguous and not demanded).
-		if pointerUnspecified(data) || (len(data) >= 1024 && sim.RefPointer(bytes.TrimSpace(data[:1024])) != sim.PtrNo) {
+		// reading of the format (which includes: shorter than 1024 bytes).
+		if pointerUnspecified(data) {
 			rc.Probe("smudge-input-ambiguous")
 			return
+		}
+		if len(data) >= 1024 && sim.RefPointer(bytes.TrimSpace(data[:1024])) != sim.PtrNo {
+			// 1024 bytes or longer: content in full, however it begins
+			rc.Probe("smudge-padded-pointer-beyond-cutoff")
 		}
 		rc.Probe("smudge-non-pointer")
 		sizes, eofWD := GenChunks(t, len(data), marks)
